@@ -263,6 +263,14 @@ def rich_case(seed, k):
     lt = any("'a" in f["ty"] for v in variants for f in v["fields"])
     decl = "<'a>" if lt else ""
     inst = "<'static>" if lt else ""
+    # a fifth of the definitions are written by a macro_rules! macro: the field types reach the derive as `ty` fragments
+    via_macro = rng.random() < 0.2
+    margs = []
+    if via_macro:
+        for v in variants:
+            for f in v["fields"]:
+                margs.append(f["ty"])
+                f["ty"] = "$t%d" % (len(margs) - 1)
 
     def fdecl(v, f, vis):
         marks = []
@@ -289,6 +297,13 @@ def rich_case(seed, k):
             body = "".join("        %s,\n" % fdecl(v, f, "") for f in v["fields"])
             vs.append("    %s %s\n%s    %s,\n" % (v["name"], "{" if v["named"] else "(", body, "}" if v["named"] else ")"))
         text = head + "pub enum Ty%s {\n%s}\n" % (decl, "".join(vs))
+    if via_macro:
+        text = "macro_rules! mk { (%s) => {\n%s} }\nmk!(%s);\n" % (", ".join("$t%d:ty" % i for i in range(len(margs))), text, ", ".join(margs))
+        k2 = 0
+        for v in variants:
+            for f in v["fields"]:
+                f["ty"] = margs[k2]
+                k2 += 1
 
     def ctor(v, written):
         exprs = []
